@@ -6,6 +6,8 @@ import (
 	"fmt"
 	"go/constant"
 	"go/token"
+	"go/types"
+	"sort"
 	"strings"
 
 	"golang.org/x/tools/go/ssa"
@@ -70,7 +72,7 @@ func init() {
 		Technique: "abstract interpretation (must-facts at every store/notify site of the inlined graphs) + term agreement between the debit leg, the credit leg, the supply update and the notifications; who-may-write over the storage key families",
 		Explanation: "Decides the step obligations of the inductive argument for supply = Σ balances ∧ no negative balance, for all inputs and all paths: D1 family 'a' is written only inside Token.transfer, by Lock (Balance constant 0) and by the migration, the supply key only by Mint/Burn. " +
 			"D2 in every caller of Token.transfer the stored debit value is loaded(from).Balance − amount (or a Delete under Balance == amount), the stored credit is loaded(to).Balance + amount with the same amount term, other fields carried over; Mint adds exactly that amount to the supply with from = nil, Burn subtracts it with to = nil under supply ≥ amount; the public transfer establishes len(from)=len(to)=20 before any effect. " +
-			"D3 the credit record is loaded after the debit store on every path (self-transfer safety). D4 amount ≥ 0 and loaded(from).Balance ≥ amount hold at the stores. D5 every effect of Token.transfer implies its result is true (refusal is inert). D6 exactly one Transfer and one TransferX notification on result-true paths, none otherwise, arguments are the from/to/amount/details terms of the legs, no other emitter. M (mutation sweep): a successful transfer has executed both legs for 20-byte addresses and only for those (legs-executed); Mint/Burn write the supply on every return; the loaders getAccount/getSupply return the stored value exactly when present.",
+			"D3 the credit record is loaded after the debit store on every path (self-transfer safety). D4 amount ≥ 0 and loaded(from).Balance ≥ amount hold at the stores. D5 every effect of Token.transfer implies its result is true (refusal is inert). D6 exactly one Transfer and one TransferX notification on result-true paths, none otherwise, arguments are the from/to/amount/details terms of the legs, no other emitter. M (mutation sweep): a successful transfer has executed both legs for 20-byte addresses and only for those (legs-executed); Mint/Burn write the supply on every return; the loaders getAccount/getSupply return the stored value exactly when present. R8: no package-level struct variable is returned or copied into a written local (a struct is a VM reference under neo-go: a shared zero value accumulates credits within an invocation).",
 		NotCovered:  "the invariant over histories is an inductive argument from D1–D6 under VM atomicity and non-wrapping VM integers; it is not executed or model-checked. Alphabet-only methods are assumed to receive 20-byte addresses and fresh lock targets (the property's own quantifier).",
 		Assumptions: []string{"VM integers fault instead of wrapping", "a balance stored earlier is non-negative (the induction hypothesis) when NewEpoch refunds the whole balance of a lock account"},
 		Run:         func(cx *CheckCtx) { runBalance(cx, "C01") },
@@ -91,7 +93,7 @@ func init() {
 		Technique: "abstract interpretation + term agreement: facts at the refund call site of NewEpoch, argument terms of the refund, lock record literal, ordering of the lock record write before the transfer, subscription on fresh deploy",
 		Explanation: "D1 Lock writes {Balance:0, Until:Param(until), Parent:Param(from)} at the key of the lock account before the transfer is attempted and the credit leg preserves Until/Parent. " +
 			"D2 in NewEpoch the refund transfer is called only under Until ≠ 0 ∧ epochNum ≥ Until, with from = the scanned account key, to = Parent and amount = Balance of the record loaded from that same key; no store to an account record lies between that load and the re-read by the debit leg within one iteration, so the debit leg takes the Balance == amount branch and deletes the record (no second unlock); a partial burn keeps Until/Parent (C01.D2). " +
-			"D3 the fresh-deploy path of balance._deploy subscribes to the Netmap tick. D4 an iteration of the tick goes round the refund only with len(key) ≠ 20 ∨ Until = 0 ∨ epochNum < Until and the scan ends only on exhaustion; D5 a successful transfer of the whole loaded balance deletes the record for every amount, 0 included.",
+			"D3 the fresh-deploy path of balance._deploy subscribes to the Netmap tick. D4 an iteration of the tick goes round the refund only with len(key) ≠ 20 ∨ Until = 0 ∨ epochNum < Until and the scan ends only on exhaustion; D5 a successful transfer of the whole loaded balance deletes the record for every amount, 0 included. R8: the loader rules of C01 (stored value exactly when present, fresh zero value otherwise, no shared package-level struct handed out) are decided here as well.",
 		NotCovered:  "that all locks expiring at one tick are released by that tick depends on the VM iterator semantics while the scanned family is mutated (trusted: Find takes a snapshot at call time); timing over tick schedules.",
 		Assumptions: []string{"storage.Find enumerates a snapshot taken when it is called (neo-go MemCachedStore)"},
 		Run:         runC09,
@@ -728,6 +730,9 @@ func runC09(cx *CheckCtx) {
 	if balanceTransferFn(cx) == nil {
 		return
 	}
+	// "exactly the remaining balance returns": the records the tick works on are loaded exactly (the
+	// loader rules of C01, which include that a zero value is not one shared object)
+	checkLoaders(cx, "contracts/balance")
 	// ---- D1: Lock
 	if m := cx.method("balance", "Lock"); m != nil {
 		a := cx.run(m)
@@ -965,6 +970,7 @@ func balanceLegs(cx *CheckCtx) {
 // found nothing: the nil test and the two returns are not crossed.
 func checkLoaders(cx *CheckCtx, pkgRel string) {
 	w := cx.W
+	checkSharedStructs(cx, pkgRel)
 	p := w.ByPath[modPrefix+pkgRel]
 	if p == nil {
 		return
@@ -1017,4 +1023,97 @@ func checkLoaders(cx *CheckCtx, pkgRel string) {
 		cx.decide(ok, "loader", fq(f), "stored value when present, default exactly when absent", fq(f)+" "+detail+": every balance / supply computed from it is wrong", w.pos(f.Pos()))
 	}
 	cx.count("loaders", n)
+}
+
+// checkSharedStructs: in code compiled by neo-go a struct value is a VM
+// reference: copying it (assignment, return, parameter) does not copy its
+// fields. A package-level struct variable that is *handed out* — returned from
+// a function, or copied into a local whose fields are then written — is
+// therefore one shared object: what one caller adds to "its" copy is seen by
+// the next one within the same invocation (a loader's zero value that
+// accumulates every amount credited to it). A package-level struct may be read
+// and passed as a receiver; it is never returned and never the source of a
+// local that is written through.
+func checkSharedStructs(cx *CheckCtx, pkgRel string) {
+	w := cx.W
+	p := w.ByPath[modPrefix+pkgRel]
+	if p == nil {
+		return
+	}
+	sp := w.Prog.Package(p.Types)
+	if sp == nil {
+		return
+	}
+	isStructGlobal := func(v ssa.Value) *ssa.Global {
+		u, ok := v.(*ssa.UnOp)
+		if !ok || u.Op != token.MUL {
+			return nil
+		}
+		g, ok := u.X.(*ssa.Global)
+		if !ok || g.Pkg != sp {
+			return nil
+		}
+		if pt, ok := g.Type().Underlying().(*types.Pointer); ok {
+			if _, isStruct := pt.Elem().Underlying().(*types.Struct); isStruct {
+				return g
+			}
+		}
+		return nil
+	}
+	nGlobals := 0
+	for _, m := range sp.Members {
+		if g, ok := m.(*ssa.Global); ok {
+			if pt, ok := g.Type().Underlying().(*types.Pointer); ok {
+				if _, isStruct := pt.Elem().Underlying().(*types.Struct); isStruct {
+					nGlobals++
+				}
+			}
+		}
+	}
+	bad := map[string]string{}
+	for _, fn := range allFuncs(sp) {
+		if fn.Blocks == nil || fn.Name() == "init" {
+			continue
+		}
+		for _, b := range fn.Blocks {
+			for _, ins := range b.Instrs {
+				switch x := ins.(type) {
+				case *ssa.Return:
+					for _, r := range x.Results {
+						if g := isStructGlobal(r); g != nil {
+							bad[g.Name()] = fq(fn) + " returns it (" + w.pos(x.Pos()) + ")"
+						}
+					}
+				case *ssa.Store:
+					g := isStructGlobal(x.Val)
+					if g == nil {
+						continue
+					}
+					// copied into a local: is the local written through afterwards?
+					if al, ok := x.Addr.(*ssa.Alloc); ok && al.Referrers() != nil {
+						for _, r := range *al.Referrers() {
+							if fa, ok := r.(*ssa.FieldAddr); ok && fa.Referrers() != nil {
+								for _, rr := range *fa.Referrers() {
+									if st, ok := rr.(*ssa.Store); ok && st.Addr == ssa.Value(fa) {
+										bad[g.Name()] = fq(fn) + " copies it into a local and writes a field of the copy (" + w.pos(st.Pos()) + ")"
+									}
+								}
+							}
+						}
+					}
+				}
+			}
+		}
+	}
+	var names []string
+	for n := range bad {
+		names = append(names, n)
+	}
+	sort.Strings(names)
+	for _, n := range names {
+		cx.violated("loader", pkgRel+"."+n+"/shared", "the package-level struct "+n+" is handed out: "+bad[n]+". Under neo-go a struct is a reference, so every holder of this \"copy\" shares one object within an invocation: an amount credited to one account's zero value is still there when the next account's zero value is asked for", "")
+	}
+	if len(names) == 0 {
+		cx.holds("loader", pkgRel+"/shared-structs", fmt.Sprintf("%d package-level struct variables: none is returned or copied into a written local", nGlobals))
+	}
 }
